@@ -71,6 +71,7 @@ def run(ctx: vlib.Ctx):
     ctx.theorems("props/C02_pack.vo", ["C02_pack_ref", "C02_field_packer", "C02_basic"])
     ctx.theorems("props/C02_collection_kernel.vo", ["C02_seq_decision_is_code", "C02_map_decision_is_code",
                                                     "C02_conversion_never_skipped", "C02_byref_iff_listed_identity"], kernels=["K15"])
+    ctx.coqchk(["VerifProps.C02_pack", "VerifProps.C02_collection_kernel"])
     ctx.trusted += ["tools/kernels/k15_collection_exprs.py (translator of _make_sequence_expression/_make_mapping_expression; "
                     "recognised tests and returned templates are listed explicitly, anything else fails closed)"]
     ctx.trusted += ["TyModel.v (cp/pk: hand-written model of pack.py registry order, copy-vs-comprehension and could_be_none decisions) "
